@@ -43,6 +43,8 @@ def template(e: ast.AST) -> list:
 def _merge(parts: list) -> list:
     out: list = []
     for p in parts:
+        if isinstance(p, ast.Constant) and isinstance(p.value, str):
+            p = p.value   # a constant in a hole is text
         if isinstance(p, str) and out and isinstance(out[-1], str):
             out[-1] += p
         elif p != "":
